@@ -808,5 +808,5 @@ package raft
 //@   ensures  nothing_removed_without_durable_snapshot: (exists i uint64 :: old(r.logs.has[i]) && !r.logs.has[i]) ==> snapDurable[r.lastSnapshotIndex]
 //@   ensures  removed_only_at_or_below_snapshot: forall i uint64 :: old(r.logs.has[i]) && !r.logs.has[i] ==> i <= r.lastSnapshotIndex
 //@   ensures  log_tail_untouched: r.lastLogIndex == old(r.lastLogIndex) && r.lastLogTerm == old(r.lastLogTerm) && r.currentTerm == old(r.currentTerm)
-//@   at call (*deferError).Error#1 assert fsm_snapshot_awaited_first: arg0 == addr(snapReq.deferError)
+//@   at call (*deferError).Error#1 assert fsm_snapshot_awaited_first: sent(r.fsmSnapshotCh) == old(sent(r.fsmSnapshotCh)) + 1 && sent(r.configurationsCh) == old(sent(r.configurationsCh))
 //@   at call SnapshotStore.Create#1 assert stamped_with_snapshot_request: arg1 == snapReq.index && arg2 == snapReq.term && arg4 == committedIndex && snapReq.index >= committedIndex
